@@ -12,7 +12,7 @@ def Op.isValue : Op → Bool
 theorem build_calls_nothing (st : St) (op : Op) (h : op.isValue = false) : (step st op).calls = st.calls := by
   cases op with
   | value s o t => simp [Op.isValue] at h
-  | dataset ty => rfl
+  | dataset ty dargs => rfl
   | derive s op args ty => simp only [step]; cases st.streams[s]? <;> rfl
   | terminal s op args => simp only [step]; cases st.streams[s]? <;> rfl
   | qmeta s md =>
@@ -79,7 +79,7 @@ theorem one_root (ops : List Op) (hclean : ∀ op ∈ ops, op.argsClean = true)
       (fun o ho => hops o (List.mem_cons_of_mem _ ho)) (fun o ho => hops' o (List.mem_cons_of_mem _ ho))
     have hc := hclean op (List.mem_cons_self)
     cases op with
-    | dataset ty =>
+    | dataset ty dargs =>
       intro s hs
       simp only [step, List.mem_append, List.mem_singleton] at hs
       rcases hs with hs | hs
@@ -157,7 +157,7 @@ theorem no_or_many_roots_rejected (e : Expr) (h : countEDS e ≠ 1) :
 
 /-- Non-vacuity: a concrete history with two datasets meets every hypothesis of the theorems above. -/
 example :
-    let ops := [Op.dataset "E", .derive 0 "Select" [.lam ["e"] (.name "e")] "E", .dataset "F",
+    let ops := [Op.dataset "E" [], .derive 0 "Select" [.lam ["e"] (.name "e")] "E", .dataset "F" [.const (.str "hi")],
           .derive 2 "MetaData" [.dict [] []] "F", .qmeta 3 [("k", .int 1)],
           .derive 4 "Where" [.lam ["f"] (.const (.bool true))] "F"]
     (∀ op ∈ ops, op.wf = true) ∧ (∀ op ∈ ops, op.argsClean = true) := by
